@@ -6,6 +6,7 @@
 #include <string>
 #include <vector>
 #include <map>
+#include <algorithm>
 #include <sstream>
 #include <iostream>
 #include <fstream>
@@ -184,6 +185,17 @@ static SigVersion sv_of(long long n) {
     switch (n) { case 0: return SigVersion::BASE; case 1: return SigVersion::WITNESS_V0; case 2: return SigVersion::TAPROOT; default: return SigVersion::TAPSCRIPT; }
 }
 
+static void dump_pv(const std::string& id, Instance& inst) {
+    std::vector<std::string> ms, ks;
+    for (auto& kv : inst.pretend_valid_map) ms.push_back(hexitem(kv.first) + ">" + hexitem(kv.second));
+    for (auto& k : inst.pretend_valid_pubkeys) ks.push_back(hexitem(k));
+    std::sort(ms.begin(), ms.end()); std::sort(ks.begin(), ks.end());
+    std::string a, b;
+    for (auto& x : ms) a += (a.empty() ? "" : ",") + x;
+    for (auto& x : ks) b += (b.empty() ? "" : ",") + x;
+    fprintf(OUT, "R %s pv map=%s keys=%s\n", id.c_str(), a.c_str(), b.c_str());
+}
+
 static void do_script(const kv& m) {
     // scr=<hex> st=<list> flags=<n> sv=<n> z=<0|1> succ=<hex> wl=<n> cmds=...
     std::string id = get(m, "id");
@@ -198,6 +210,7 @@ static void do_script(const kv& m) {
     if (m.count("pv")) {
         std::string pv = unhexstr(get(m, "pv"));
         if (!inst.parse_pretend_valid_expr(pv.c_str())) { fprintf(OUT, "R %s pvrefused\n", id.c_str()); return; }
+        dump_pv(id, inst);
     }
     if (!inst.setup_environment((unsigned)geti(m, "flags"))) {
         fprintf(OUT, "R %s setupfail err=%d\n", id.c_str(), (int)inst.error);
@@ -239,6 +252,7 @@ static void do_spend(const kv& m) {
     if (m.count("pv")) {
         std::string pv = unhexstr(get(m, "pv"));
         if (!inst.parse_pretend_valid_expr(pv.c_str())) { fprintf(OUT, "R %s pvrefused\n", id.c_str()); return; }
+        dump_pv(id, inst);
     }
     if (!inst.configure_tx_txin()) { fprintf(OUT, "R %s refused\n", id.c_str()); return; }
     if (!inst.setup_environment((unsigned)geti(m, "flags"))) {
